@@ -155,9 +155,12 @@ func (b *batch) Commit(ctx context.Context) error {
 		keyBytes := []byte(k)
 		if v.isDeleted {
 			b.store.skl.Remove(keyBytes)
+			delete(b.store.expireAt, k)
 		} else {
 			if v.ttl != 0 {
 				b.asyncRemove(keyBytes, v.ttl)
+			} else {
+				delete(b.store.expireAt, k)
 			}
 			b.store.skl.Set(keyBytes, v.val)
 		}
@@ -172,9 +175,20 @@ func (b *batch) asyncRemove(key []byte, seconds int64) {
 		return
 	}
 
-	go func(kvStorage storage.KvStorage) {
-		time.AfterFunc(time.Duration(seconds)*time.Second, func() {
-			_ = b.store.del(key)
-		})
-	}(b.store)
+	// called from Commit with the store mutex held
+	s := b.store
+	deadline := time.Now().Add(time.Duration(seconds) * time.Second)
+	if s.expireAt == nil {
+		s.expireAt = make(map[string]time.Time)
+	}
+	s.expireAt[string(key)] = deadline
+	time.AfterFunc(time.Duration(seconds)*time.Second, func() {
+		s.mu.Lock()
+		defer s.mu.Unlock()
+		// expire the value this ttl was given to, not whatever the key holds by now
+		if d, ok := s.expireAt[string(key)]; ok && d.Equal(deadline) {
+			s.skl.Remove(key)
+			delete(s.expireAt, string(key))
+		}
+	})
 }
